@@ -492,3 +492,48 @@ def rule_primary_templates_raise(ctx, rep: Report, rid="K13"):
         rep.add(rid, f"{nm}<T>:the unspecialised converter raises", ok,
                 "without the error call a type the header cannot convert is silently converted to 0 / a default-constructed value",
                 hloc(prim[0]))
+
+
+# ------------------------------------------------------------------------------------------ K14 64-bit scalars
+def rule_wide_integers_read_exactly(ctx, rep: Report, rid="K14"):
+    """A 64-bit integer array (MATLAB int64 / uint64) is read through the 64-bit integer type of the same signedness,
+    not through mxGetScalar, which returns a double and rounds every value above 2^53 (a gtsam Key such as
+    symbol('x',1) = 0x7800000000000001 would arrive as another key).  In myGetScalar, for each of mxINT64_CLASS and
+    mxUINT64_CLASS there is a path - a switch case or an `if` on the class id - that returns `*(<that type>*)
+    mxGetData(array)`."""
+    h = header(ctx)
+    fs = h.functions("myGetScalar")
+    if not fs:
+        raise AnalysisError("myGetScalar not found")
+    f = fs[0]
+    found: Dict[str, str] = {}
+
+    def typed_read(node) -> Optional[str]:
+        for r in walk(node):
+            if r.get("kind") == "ReturnStmt":
+                for c in walk(r):
+                    if c.get("kind") in ("CStyleCastExpr", "CXXReinterpretCastExpr", "CXXStaticCastExpr") and c.get("inner") \
+                            and callee(strip(c["inner"][0])) == "mxGetData":
+                        return canon_type(c.get("type", {})).replace(" ", "")
+        return None
+    for n_ in walk(f):
+        if n_.get("kind") == "CaseStmt" and n_.get("inner"):
+            lab = _enum_name(n_["inner"][0]) or next((_enum_name(x) for x in walk(n_["inner"][0]) if _enum_name(x)), None)
+            ty = typed_read(n_)
+            if lab and ty:
+                found[lab] = ty
+        if n_.get("kind") == "IfStmt" and n_.get("inner"):
+            cond = strip(n_["inner"][0])
+            if cond.get("kind") == "BinaryOperator" and cond.get("opcode") == "==":
+                labs = [_enum_name(x) for x in cond["inner"] if _enum_name(x)]
+                if labs and any(callee(strip(x)) == "mxGetClassID" for x in cond["inner"]):
+                    ty = typed_read(n_["inner"][1]) if len(n_["inner"]) > 1 else None
+                    if ty:
+                        found[labs[0]] = ty
+    want = {"mxINT64_CLASS": ("int64_t*", "longlong*", "long*"), "mxUINT64_CLASS": ("uint64_t*", "unsignedlonglong*", "unsignedlong*")}
+    for cls, tys in want.items():
+        got = found.get(cls)
+        ok = got is not None and any(got.endswith(t) for t in tys) and (cls != "mxINT64_CLASS" or "unsigned" not in got and "uint" not in got)
+        rep.add(rid, f"myGetScalar:{cls} read through the 64-bit integer type of the same signedness", ok,
+                f"{cls} is read as {got or 'a double (mxGetScalar)'}: values above 2^53 are rounded before they reach the C++ parameter "
+                f"(size_t keys, int64 counters)", hloc(f))
